@@ -46,6 +46,21 @@ def splitGo : List (Text × Bool) → Text → Bool → List Text
 
 def splitSections (lines : List (Text × Bool)) : List Text := splitGo lines [] true
 
+/-- The same for a pattern whose group also captures the separator line's trailing newline
+    (e.g. `^(# ==== .+ ====\n)`): the separator chunk is `line ++ "\n"` and the next code chunk starts at
+    the beginning of the following line.  Such a pattern cannot match a last line without a newline, so a
+    flagged last line is treated as ordinary text. -/
+def splitGoNL : List (Text × Bool) → Text → Bool → List Text
+  | [], cur, _ => [cur]
+  | (line, isMarker) :: rest, cur, first =>
+    let cur := if first then cur else cur ++ ['\n']
+    if isMarker && !rest.isEmpty then cur :: (line ++ ['\n']) :: splitGoNL rest [] true
+    else splitGoNL rest (cur ++ line) false
+
+/-- `takesNL = false`: the group spans exactly the separator line; `true`: line plus its newline. -/
+def splitMode (takesNL : Bool) (lines : List (Text × Bool)) : List Text :=
+  if takesNL then splitGoNL lines [] true else splitSections lines
+
 def concat (ts : List Text) : Text := ts.foldr (· ++ ·) []
 
 /-- `_calculate_section_number`. -/
@@ -63,7 +78,8 @@ structure St where
   deriving Repr, BEq, DecidableEq
 
 inductive Op
-  | separate (marks : List Bool) (independent : Bool)   -- marker flag of every line of the current main code
+  | separate (marks : List Bool) (independent : Bool) (takesNL : Bool := false)
+      -- marker flag of every line of the current main code; does the group capture the line's newline?
   | next
   | stop
   | resolveHook                                          -- stop_any_sections
@@ -74,8 +90,8 @@ def zipMarks (lines : List Text) (marks : List Bool) : List (Text × Bool) :=
 
 /-- One API call; `none` = the real code raises (IndexError on an empty substitution stack). -/
 def step (s : St) : Op → Option St
-  | .separate marks independent =>
-    let secs := splitSections (zipMarks (splitLines s.main) marks)
+  | .separate marks independent takesNL =>
+    let secs := splitMode takesNL (zipMarks (splitLines s.main) marks)
     some { s with independent := independent, idx := 0, offset := 0, sections := secs, separated := true,
                   subs := s.subs ++ [s.main], main := secs.headD [] }
   | .next =>
@@ -107,7 +123,8 @@ def run (s : St) : List Op → Option St
   | op :: ops => (step s op).bind (run · ops)
 
 /-! ### Wire format
-`sections <x-text> <n> op…` with op = `S<i|c><marks as 0/1 string or ->` | `N` | `T` | `R`.
+`sections <x-text> op…` with op = `S<i|c|I|C><marks as 0/1 string or ->` (upper case: the group captures
+the newline) | `N` | `T` | `R`.
 Answer: `ok main=<x> offset=<n> idx=<n> subs=<n> notenough=[c:f,…] sections=<n>` or `raise`. -/
 open Pedal.Wire
 
@@ -115,7 +132,9 @@ def parseOp (tok : String) : Option Op :=
   match tok.toList with
   | 'S' :: m :: marks =>
     let marks := if marks = ['-'] then [] else marks.map (· == '1')
-    if m = 'i' then some (.separate marks true) else if m = 'c' then some (.separate marks false) else none
+    if m = 'i' then some (.separate marks true false) else if m = 'c' then some (.separate marks false false)
+    else if m = 'I' then some (.separate marks true true) else if m = 'C' then some (.separate marks false true)
+    else none
   | ['N'] => some .next
   | ['T'] => some .stop
   | ['R'] => some .resolveHook
@@ -137,12 +156,12 @@ def handle : List String → String
 
 /-- `split <x-text> <marks>`: the section list itself, `|`-separated hex. -/
 def handleSplit : List String → String
-  | [text, marks] =>
-    match decStr text with
-    | some t =>
+  | [text, marks, mode] =>
+    match decStr text, Pedal.Wire.decBool mode with
+    | some t, some takesNL =>
       let marks := if marks = "-" then [] else marks.toList.map (· == '1')
-      "ok " ++ String.intercalate "|" ((splitSections (zipMarks (splitLines t.toList) marks)).map fun c => encStr (String.ofList c))
-    | none => "bad-request"
+      "ok " ++ String.intercalate "|" ((splitMode takesNL (zipMarks (splitLines t.toList) marks)).map fun c => encStr (String.ofList c))
+    | _, _ => "bad-request"
   | _ => "bad-request"
 
 end Pedal.Sections
